@@ -36,6 +36,10 @@ RUNS = {
   'C10': (1500, 40000),
 }
 
+# wall-clock budget in seconds (quick, thorough) where the default 40 / 480 is too
+# tight: C06 has a few high-request-rate runs of ~10 s each
+BUDGET = {'C06': (90, 600)}
+
 LEVELS = {'C08': 'fault_enumeration'}
 
 COMPONENTS = {
